@@ -103,8 +103,22 @@ def history(rng, nops=(2, 8), invalid_share=0.3, dtype_focus=False):
     ops.append({"op": "of_arrays", "out": 2, "binning": other, "freq": ["1"] * k, "err2": None, "under": "0", "over": "0",
                 "inner": "0", "dtype": "int64"})
     nfree = 3
+    has_big = any(o["op"] == "of_arrays" and any(abs(float(Fraction(x))) > 20000 for x in o["freq"] + (o["err2"] or []))
+                  for o in ops[:2])
     for _ in range(rng.randint(*nops)):
         h = rng.choice([0, 0, 1])
+        if has_big:
+            # values near the limits of a narrow type: only conversions (no sums that would wrap around)
+            kind = rng.choice(["set_dtype", "set_dtype", "copy", "slice"])
+            tags.append(kind)
+            if kind == "set_dtype":
+                ops.append({"op": "set_dtype", "h": h, "dtype": rng.choice(DTYPES), "maybe_refused": True,
+                            "via_property": rng.random() < 0.5})
+            elif kind == "copy":
+                ops.append({"op": "copy", "h": h, "out": nfree, "with_freq": True}); nfree += 1
+            else:
+                ops.append({"op": "slice", "h": h, "start": rng.choice([None, 0, 1]), "stop": None, "out": nfree}); nfree += 1
+            continue
         if rng.random() < invalid_share:
             bad = rng.choice(["add_incompatible", "iadd_incompatible", "mul_hist", "add_array", "fill_n_wshape", "neg_imul",
                               "zero_idiv", "set_dtype_bad", "sub_too_much", "item_range", "add_none", "neg_idiv",
